@@ -1,0 +1,159 @@
+//go:build verif
+
+package dsp
+
+// Verification hooks for property C13 (results do not depend on CPU-specific
+// code paths): every dsp entry point that has an assembly / dispatched
+// implementation is exposed twice, as the portable Go function and as whatever
+// the running build dispatches to.  Add-only; compiled only with -tags verif.
+
+// VerifArchKernels is one implementation of every kernel that has (on some
+// architecture) an assembly version.
+type VerifArchKernels struct {
+	Name string
+
+	// decoder transforms
+	Transform    func(in []int16, dst []byte, doTwo bool)
+	TransformUV  func(in []int16, dst []byte)
+	TransformWHT func(in, out []int16)
+	// encoder transforms
+	ITransform    func(ref []byte, in []int16, dst []byte, doTwo bool)
+	FTransform    func(src, ref []byte, out []int16)
+	FTransform2   func(src, ref []byte, out []int16)
+	FTransformWHT func(in, out []int16)
+	// call-time dispatched ("Direct") transforms
+	ITransformDirect func(ref []byte, in []int16, dst []byte, doTwo bool)
+	FTransformDirect func(src, ref []byte, out []int16)
+
+	// 16x16 / 8x8 intra predictors, modes 0..3 = DC, TM, VE, HE (table and Direct)
+	PredLuma16        [4]func(buf []byte, off int)
+	PredChroma8       [4]func(buf []byte, off int)
+	PredLuma16Direct  func(mode int, buf []byte, off int)
+	PredChroma8Direct func(mode int, buf []byte, off int)
+
+	// simple in-loop filter, one 16-wide horizontal edge
+	SimpleVFilter16 func(p []byte, base, stride, thresh int)
+
+	// distortion metrics
+	SSE4x4         func(pix, ref []byte) int
+	SSE16x16       func(pix, ref []byte) int
+	SSE4x4Direct   func(pix, ref []byte) int
+	SSE16x16Direct func(pix, ref []byte) int
+	TDisto4x4      func(a, b []byte) int
+	TDisto16x16    func(a, b []byte) int
+
+	// lossless green transforms
+	AddGreenToBlueAndRed func(argb []uint32, n int)
+	SubtractGreen        func(argb []uint32, n int)
+
+	// fancy upsampler + YUV->NRGBA
+	UpsampleLinePairNRGBA func(topY, botY, topU, topV, botU, botV, topDst, botDst, alphaTop, alphaBot []byte, width int)
+}
+
+func predDirect16Go(mode int, dst []byte, off int) {
+	switch mode {
+	case 0:
+		dc16(dst, off)
+	case 1:
+		tm16(dst, off)
+	case 2:
+		ve16(dst, off)
+	case 3:
+		he16(dst, off)
+	case 4:
+		dc16NoTop(dst, off)
+	case 5:
+		dc16NoLeft(dst, off)
+	case 6:
+		dc16NoTopLeft(dst, off)
+	}
+}
+
+func predDirect8Go(mode int, dst []byte, off int) {
+	switch mode {
+	case 0:
+		dc8uv(dst, off)
+	case 1:
+		tm8uv(dst, off)
+	case 2:
+		ve8uv(dst, off)
+	case 3:
+		he8uv(dst, off)
+	case 4:
+		dc8uvNoTop(dst, off)
+	case 5:
+		dc8uvNoLeft(dst, off)
+	case 6:
+		dc8uvNoTopLeft(dst, off)
+	}
+}
+
+// VerifArchPortable returns the portable Go implementations.
+func VerifArchPortable() VerifArchKernels {
+	return VerifArchKernels{
+		Name:              "portable",
+		Transform:         transformTwo,
+		TransformUV:       transformUV,
+		TransformWHT:      transformWHT,
+		ITransform:        iTransform,
+		FTransform:        fTransform,
+		FTransform2:       fTransform2,
+		FTransformWHT:     fTransformWHT,
+		ITransformDirect:  iTransform,
+		FTransformDirect:  fTransform,
+		PredLuma16:        [4]func([]byte, int){dc16, tm16, ve16, he16},
+		PredChroma8:       [4]func([]byte, int){dc8uv, tm8uv, ve8uv, he8uv},
+		PredLuma16Direct:  predDirect16Go,
+		PredChroma8Direct: predDirect8Go,
+		SimpleVFilter16:   simpleVFilter16Go,
+		SSE4x4:            sse4x4,
+		SSE16x16:          sse16x16,
+		SSE4x4Direct:      sse4x4,
+		SSE16x16Direct:    sse16x16,
+		TDisto4x4:         tDisto4x4Go,
+		TDisto16x16:       tDisto16x16Go,
+
+		AddGreenToBlueAndRed:  addGreenToBlueAndRedGo,
+		SubtractGreen:         subtractGreenGo,
+		UpsampleLinePairNRGBA: upsampleLinePairNRGBAGo,
+	}
+}
+
+// VerifArchDispatched returns what the running build actually calls (read at
+// call time, so that a later change of the dispatch variables is seen).
+func VerifArchDispatched() VerifArchKernels {
+	k := VerifArchKernels{
+		Name:              "dispatched",
+		Transform:         func(in []int16, dst []byte, doTwo bool) { Transform(in, dst, doTwo) },
+		TransformUV:       func(in []int16, dst []byte) { TransformUV(in, dst) },
+		TransformWHT:      func(in, out []int16) { TransformWHT(in, out) },
+		ITransform:        func(ref []byte, in []int16, dst []byte, doTwo bool) { ITransform(ref, in, dst, doTwo) },
+		FTransform:        func(src, ref []byte, out []int16) { FTransform(src, ref, out) },
+		FTransform2:       func(src, ref []byte, out []int16) { FTransform2(src, ref, out) },
+		FTransformWHT:     func(in, out []int16) { FTransformWHT(in, out) },
+		ITransformDirect:  ITransformDirect,
+		FTransformDirect:  FTransformDirect,
+		PredLuma16Direct:  PredLuma16Direct,
+		PredChroma8Direct: PredChroma8Direct,
+		SimpleVFilter16:   SimpleVFilter16,
+		SSE4x4:            func(a, b []byte) int { return SSE4x4(a, b) },
+		SSE16x16:          func(a, b []byte) int { return SSE16x16(a, b) },
+		SSE4x4Direct:      SSE4x4Direct,
+		SSE16x16Direct:    SSE16x16Direct,
+		TDisto4x4:         TDisto4x4,
+		TDisto16x16:       TDisto16x16,
+
+		AddGreenToBlueAndRed:  AddGreenToBlueAndRed,
+		SubtractGreen:         SubtractGreen,
+		UpsampleLinePairNRGBA: UpsampleLinePairNRGBA,
+	}
+	for m := 0; m < 4; m++ {
+		m := m
+		k.PredLuma16[m] = func(buf []byte, off int) { PredLuma16[m](buf, off) }
+		k.PredChroma8[m] = func(buf []byte, off int) { PredChroma8[m](buf, off) }
+	}
+	return k
+}
+
+// VerifArchHasAVX2 reports the CPU probe result used by the dispatch.
+func VerifArchHasAVX2() bool { return hasAVX2 }
